@@ -1400,7 +1400,7 @@ add_varsize_length(Py_ssize_t offset, Py_ssize_t itemsize,
     Py_ssize_t size = ADD_WRAPAROUND(offset,
                               MUL_WRAPAROUND(itemsize, varsizelength));
     if (size < 0 ||
-        ((size - offset) / itemsize) != varsizelength) {
+        (itemsize != 0 && ((size - offset) / itemsize) != varsizelength)) {
         PyErr_SetString(PyExc_OverflowError,
                         "array size would overflow a Py_ssize_t");
         return -1;
